@@ -528,3 +528,50 @@ def run_loss_corr(ctx):
             if E.shape != (D, D) or np.max(np.abs(E - want), initial=0) > 1e-12:
                 ctx.disagree("FockLoss.lossKraus vs lossChannel(T, D)[k]", dict(case, k=k), str(want), str(E))
                 break
+
+
+# ---------------------------------------------------------------- K3: bosonic cat-state preparation (complex representation)
+
+def run_cat_corr(ctx, n_cases):
+    """`BosonicBackend.prepare_cat(a, theta, p, 'complex', ...)` vs `SFV.Model.BosonicState.catComplex`: the irrational inputs
+    (sqrt(2 hbar), Re/Im alpha, c = exp(-2|alpha|^2 - i pi p)) are computed here and handed to the model as exact rationals"""
+    if not ctx.proof_ok:
+        return
+    import strawberryfields as sf
+    from strawberryfields.backends.bosonicbackend.backend import BosonicBackend
+    rng = ctx.rng
+    reqs, reals, cases = [], [], []
+    ex = lambda x: fr(Fraction(float(x)))
+    old_hbar = sf.hbar
+    for it in range(n_cases):
+        hbar = rng.choice([2.0, 2.0, 1.0, 0.5, 1.7])
+        a = round(rng.uniform(0.2, 2.0), 3)
+        theta = rng.choice([0.0, round(rng.uniform(-3.1, 3.1), 3)])
+        p = rng.choice([0, 1, 0.5, 0.25, 1.5, round(rng.uniform(0, 2), 3)])
+        sf.hbar = hbar
+        be = BosonicBackend()
+        be.begin_circuit(1)
+        be.circuit.hbar = hbar          # prepare_cat reads the convention there (2 in every run of the back end; other values
+                                        # exercise the formula's dependence on it)
+        w, mu, cov = be.prepare_cat(a, theta, p, "complex", 0.01, 2)
+        alpha = a * np.exp(1j * theta)
+        c = np.exp(-2 * abs(alpha) ** 2 - 1j * np.pi * p)
+        reqs.append(dict(op="bos.cat", hb2=ex(hbar / 2), s=ex(np.sqrt(2 * hbar)), ar=ex(alpha.real), ai=ex(alpha.imag),
+                         cre=ex(c.real), cim=ex(c.imag)))
+        reals.append((np.asarray(w), np.asarray(mu), np.asarray(cov)))
+        cases.append(dict(a=a, theta=theta, p=p, hbar=hbar))
+    sf.hbar = old_hbar
+    for req, (w, mu, cov), case, model in zip(reqs, reals, cases, ctx.lean(reqs)):
+        ctx.corr_cases += 1
+        ctx.count("cat-complex", case, case["p"] not in (0, 1), sample=case)
+        if "__error__" in model:
+            ctx.disagree("BosonicState driver error", case, model, None)
+            continue
+        mw = np.array([_cx(z) for z in model["w"]])
+        mmu = np.array([[_cx(z) for z in row] for row in model["mu"]])
+        mcov = np.array([[[_cx(z) for z in r] for r in blk] for blk in model["cov"]])
+        ok = w.shape == mw.shape and mu.shape == mmu.shape and cov.shape == mcov.shape and \
+            np.max(np.abs(w - mw)) < 1e-12 and np.max(np.abs(mu - mmu)) < 1e-12 * max(1.0, np.max(np.abs(mmu))) and \
+            np.max(np.abs(cov - mcov)) < 1e-12
+        if not ok:
+            ctx.disagree("BosonicState.catComplex vs prepare_cat", case, dict(w=str(mw), mu=str(mmu)), dict(w=str(w), mu=str(mu)))
